@@ -198,7 +198,20 @@ def cases(tier):
         hs = scopes.h_cases(3, 3, 1)
     else:
         hs = scopes.h_cases(4, 4, 1) + scopes.h_cases(3, 3, 2, with_labels=False)
-    return hs + c01.loop_cases() + lattice_cases(tier)
+    return hs + c01.loop_cases() + lattice_cases(tier) + transient_cases()
+
+
+def transient_cases():
+    """the same loops and a two-feeder tree, calculated as 3 consecutive transient time steps (the internal tables of
+    the previous step are re-used); start pressures differ from the prescribed ones"""
+    out = []
+    for lc in c01.loop_cases():
+        if lc["oos"] is None and lc["load"] in (None, "sink"):
+            out.append(dict(lc, scope="L", transient=True))
+    for fluid in ("water",):
+        for grids in ([["j0", 5.0, True, "pt"], ["j3", 5.1, True, "pt"]], [["j0", 5.0, True, "pt"], ["j0", 5.4, True, "pt"], ["j3", 5.1, True, "pt"]]):
+            out.append({"scope": "eg", "fluid": fluid, "grids": grids, "transient": True})
+    return out
 
 
 def run_case(case):
@@ -215,6 +228,24 @@ def run_case(case):
     kw = dict(spec.TIGHT)
     kw.update(opts)
     kw.setdefault("use_numba", False)
+    if case.get("transient"):
+        net.junction["pn_bar"] = 1.0     # start pressures far from the prescribed ones
+        kw["mode"] = "sequential"
+        allv, info, sig = [], {}, []
+        for step in range(3):
+            try:
+                pp.pipeflow(net, transient=True, dt=60.0, simulation_time_step=step, **kw)
+            except Exception as e:
+                return {"status": "raised:" + type(e).__name__, "violations": allv}
+            r = check_net(net)
+            for v in r["violations"]:
+                v["tags"]["transient_step"] = ">0" if step else "0"
+                v["detail"] = "transient step %d: %s" % (step, v["detail"])
+            allv += r["violations"]
+            for k_, n_ in r["info"].items():
+                info["transient_" + k_] = info.get("transient_" + k_, 0) + n_
+            sig.append(r["sig"])
+        return {"status": "ok", "violations": allv, "nontrivial": True, "sig": core.jhash(sig), "info": info}
     try:
         pp.pipeflow(net, **kw)
     except Exception as e:
